@@ -37,7 +37,9 @@ def attrstr(a, quote='"'):
 def build(r, c, sep, cap, tattr, rattr, cattr, hdr, cont):
     L = ["{|" + (" " + attrstr(tattr) if tattr else "")]
     if cap:
-        L.append("|+" + (" " + attrstr(cap[1]) + " | " if cap[1] else "") + cap[0])
+        # (a third element "tight": no blank between the attribute bar and the caption text)
+        tight = len(cap) > 2 and cap[2] == "tight"
+        L.append("|+" + (" " + attrstr(cap[1]) + (" |" if tight else " | ") if cap[1] else "") + cap[0])
     norow = sep.endswith("_norow")      # the first row is not introduced by "|-" (legal; directly after "{|" or the caption)
     for i in range(r):
         if not (norow and i == 0 and not rattr):
@@ -144,7 +146,8 @@ def judge_table(ctx, exp, src, r, c, cap, tattr, rattr, cattr, hdr, cont):
 def table_specs(tier):
     q = tier == "quick"
     maxn = 3 if q else 4
-    caps = [None, ("Cap", {}), ("Cap", {"class": "k"}), ("'''C'''", {})]
+    caps = [None, ("Cap", {}), ("Cap", {"class": "k"}), ("'''C'''", {}), ("-40 to 40", {"id": "c"}, "tight"), ("-ar", {}, "tight"),
+            ("!x", {"id": "c"}, "tight")]
     for r, c in itertools.product(range(1, maxn + 1), repeat=2):
         for sep in ("nl", "inline", "nl_norow", "inline_norow"):
             for cap in caps:
@@ -479,7 +482,7 @@ def main(run):
     q = run.tier == "quick"
     cov = {
         "distinct_nontrivial": len(run.acc.sets.get("inputs", ())),
-        "rule": "tables: rows x columns in 1..%d, newline / inline (|| !!) separators, 4 caption forms, 3 table x 2 row x 5 cell attribute "
+        "rule": "tables: rows x columns in 1..%d, newline / inline (|| !!) separators, 7 caption forms (three with text that starts like a table marker, glued to the bar), 3 table x 2 row x 5 cell attribute "
                 "maps, 3 header patterns, affine content assignments cell(i,j)=K[(a+b*i+c*j) mod 16] over 16 contents (text, template, two colon-form parser functions, text and a template argument with '=', "
                 "piped link, bold, italic, inline HTML, text with '!', two words); the full product of contents for 2x2 grids; every "
                 "paired and void tag of the allowed-HTML table (special-purpose tags excluded) x 5 attribute maps (one with mixed-case names) x 2 quote styles x 6 "
